@@ -271,7 +271,7 @@ let writer_init_existing acc =
   (* mtbl_writer_init never opens an existing path *)
   let d = tmpdir () in
   let base = Filename.concat d (Printf.sprintf "exist_%d" (Unix.getpid ())) in
-  let kinds = [ "regular"; "empty"; "symlink"; "directory" ] in
+  let kinds = [ "regular"; "empty"; "symlink"; "dangling_symlink"; "directory" ] in
   List.iter (fun kind ->
     let p = base ^ "_" ^ kind in
     let target = base ^ "_target" in
@@ -280,13 +280,15 @@ let writer_init_existing acc =
      | "regular" -> let oc = open_out_bin p in output_string oc "precious content"; close_out oc
      | "empty" -> close_out (open_out_bin p)
      | "symlink" -> let oc = open_out_bin target in output_string oc "target content"; close_out oc; Unix.symlink target p
+     | "dangling_symlink" -> Unix.symlink target p         (* the path exists (as a link); its target does not *)
      | _ -> Unix.mkdir p 0o755);
     let case = lazy (JO [ "op", JS "mtbl_writer_init on existing path"; "kind", JS kind ]) in
     record acc ~key:("exist" ^ kind) ~nontrivial:true ~klass:"writer_init_existing" case;
     let r = in_child (fun () -> let w = c_writer_init p in if w = 0n then "NULL" else (c_writer_destroy w; "OPENED")) in
     let content () = if kind = "directory" then (if Sys.is_directory p then "dir" else "gone")
+      else if kind = "dangling_symlink" then (if Sys.file_exists target then "target created through the link" else (match (Unix.lstat p).Unix.st_kind with Unix.S_LNK -> "link" | _ -> "replaced"))
       else (let ic = open_in_bin (if kind = "symlink" then target else p) in let n = in_channel_length ic in let s = really_input_string ic n in close_in ic; s) in
-    let expected = (match kind with "regular" -> "precious content" | "empty" -> "" | "symlink" -> "target content" | _ -> "dir") in
+    let expected = (match kind with "regular" -> "precious content" | "empty" -> "" | "symlink" -> "target content" | "dangling_symlink" -> "link" | _ -> "dir") in
     (match r with
      | Exited (_, "NULL") -> if content () <> expected then fail acc ~kind:"spec_violation" ~what:"[C08] existing file modified by mtbl_writer_init" (Lazy.force case)
      | _ -> fail acc ~kind:"spec_violation" ~what:"[C08] mtbl_writer_init opened an existing path" (Lazy.force case));
@@ -311,6 +313,10 @@ let run ~tier ~seed ~only acc =
     ("key_16k", nocfg, [ ("a", "1"); (String.make 16384 'k', "2"); (String.make 16384 'k' ^ "x", String.make 16384 'v') ]);
   ] in
   List.iter (fun (klass, c, ops) -> if want () then check_case acc ~klass ~with_info:true c ops; incr idx) directed;
+  (* every separator pair with the block cut forced between the two keys *)
+  List.iter (fun (a, b) ->
+    if want () then check_case acc ~klass:"sep_pair_at_cut" ~with_info:false nocfg [ (a, String.make 1100 'v'); (b, "w"); (b ^ "\xff", "x") ];
+    incr idx) sep_pairs;
   if want () then writer_init_existing acc; incr idx;
   let n = if tier = "thorough" then 6000 else 260 in
   for _ = 1 to n do
